@@ -474,6 +474,20 @@ def int_instr(ctx, rng, a: int, b: int) -> None:
                                    hex(b).encode()))
 
     chk('ADD_INTS', base + bytes([o['OP_ADD_INTS'], 2]), a + b, 'add')
+    # the count byte is part of the arithmetic: the sum of NO items is 0 and
+    # leaves what lies below alone, the sum of one item is that item
+    if len(ea) < 1000 and len(eb) < 1000:
+        for cnt, want_top in ((0, [a, b, 0]), (1, [a, b])):
+            State.cur = {'kind': 'instr', 'op': 'ADD_INTS', 'a_hex': hex(a),
+                         'b_hex': hex(b), 'count': cnt}
+            ctx.evaluated()
+            ctx.tab('instr', f'ADD_INTS/count-{cnt}')
+            st, exc = run_prog(base + bytes([o['OP_ADD_INTS'], cnt]))
+            if exc is not None or [sdec(x) for x in st] != want_top:
+                _viol(f'add-count-{cnt}', f'ADD_INTS with count {cnt} over '
+                      'two items', [_short(x) for x in want_top],
+                      repr(exc)[:80] if exc else
+                      [_short(sdec(x)) for x in st])
     chk('SUBTRACT_INTS', base + bytes([o['OP_SUBTRACT_INTS'], 2]), b - a, 'sub')
     if a.bit_length() + b.bit_length() < 500_000:
         chk('MULT_INTS', base + bytes([o['OP_MULT_INTS'], 2]), a * b, 'mult')
